@@ -135,6 +135,12 @@ def build(prop=None, need_model=True):
 
 def _collect_assumptions(bs, prop):
     src = props_files(prop)
+    if not os.path.exists(src):
+        bs.proof_ok[prop] = False
+        bs.proof_log[prop] = "missing " + src
+        bs.obligations[prop] = (0, 0)
+        bs.assumptions[prop] = []
+        return
     with open(src, encoding="utf-8") as f:
         text = f.read()
     theorems = re.findall(r"^\s*Theorem\s+(\w+)", text, re.M)
